@@ -51,6 +51,7 @@ type Ledger struct {
 	B    *Backend
 	W    Writes
 	R    Reads
+	rSet bool
 }
 
 type Backend struct {
@@ -110,11 +111,13 @@ func (b *Backend) GetLedgerEngine(ctx context.Context, name string) (backend.Led
 		b.Ledgers[name] = l
 		ok = true
 	}
+	if ok && !l.rSet {
+		l.R, l.rSet = b.R, true // once, under the lock: handlers read it without one
+	}
 	b.mu.Unlock()
 	if !ok {
 		return nil, sqlutils.ErrNotFound
 	}
-	l.R = b.R
 	return l, nil
 }
 
